@@ -307,9 +307,10 @@ Section Monitors.
          | ODeadline, Some k =>
            (* never early (for deadlines within the supported span), only for a transmitted
               request, and not if its reply was read before the deadline *)
-           ((max_timeout_ms <? k_rel k) || (k_created k + k_rel k <=? m_now m)) &&
            negb (Nat.eqb (length reqs) 0) &&
-           forallb (fun s => negb (read_before_time m (s_id s) (s_seq s) (s_deadline s))) reqs
+           ((max_timeout_ms <? k_rel k) ||
+            ((k_created k + k_rel k <=? m_now m) &&
+             forallb (fun s => negb (read_before_time m (s_id s) (s_seq s) (s_deadline s))) reqs))
          | _, _ => true
          end;
        v09 :=
